@@ -866,6 +866,14 @@ def removal_internals(run: Run, model: PyModel, rid: str) -> None:
         twice = sorted({d for d in deleted if deleted.count(d) > 1})
         run.check(rid, "removing a page deletes every row that belongs to it (notes, H1..H4 sections, blocks, property links, the page) exactly once", not missing and not twice, "SQLRepo.remove_file_by_name",
                   f"missing {missing} twice {twice}", f"remove_file_by_name leaves {missing} behind (deleted twice: {twice}): stale rows show up in queries or are duplicated when the page is added again", file=FILE_R, node=fq.node)
+        # the removal commits while it works (after each property link / orphaned tag): the PAGE row is the handle by which a re-run finds what an interrupted removal left
+        # behind, so it is deleted after the last of these commits (together with the rest, in the caller's transaction) -- never before one
+        ev = [(t[0], t[1] if len(t) > 1 else None) for t in s.trace if t[0] in ("delete", "commit")]
+        k_page = next((i for i, t in enumerate(ev) if t == ("delete", "page")), None)
+        late = k_page is not None and any(t[0] == "commit" for t in ev[k_page + 1:])
+        run.check(rid, "the page row is deleted after the removal's last interior commit", not late, "SQLRepo.remove_file_by_name", "a commit follows the deletion of the page row",
+                  "remove_file_by_name deletes the page row and then commits while notes of the page are still to be removed: a run killed there leaves note rows without a page; the re-run no "
+                  "longer finds the page by name, so those rows are never removed and the page is indexed twice", file=FILE_R, node=fq.node)
         run.check(rid, "rows shared with other pages (tags / properties still in use) are kept", not wrong, "SQLRepo.remove_file_by_name", f"deleted {wrong}",
                   f"remove_file_by_name also deletes {wrong}, which other pages' notes still use", file=FILE_R, node=fq.node)
         run.check(rid, "the removed page is handed back", v is not None, "SQLRepo.remove_file_by_name", "returns None for an indexed page", "remove_file_by_name returns None although the page was indexed (the caller then treats it as new: no modify dates are stamped)", file=FILE_R, node=fq.node)
